@@ -789,13 +789,13 @@ def run_mins(chk, seed):
 
 # scale decade -> the power of two next to it (scaling by a power of two is exact in binary floating point, so with the
 # plain 2-norm normalisation q_0 = v/|v| the whole run is bit-for-bit independent of the factor unless |v|^2 under/overflows)
-SCALES = {"1e-14": 2.0 ** -47, "1e-20": 2.0 ** -66, "1e-30": 2.0 ** -100, "1e+8": 2.0 ** 27}
-HAZARD_UFL = "hazard=f32-start-norm-underflow"
+SCALES = {"1e-14": 2.0 ** -47, "1e-20": 2.0 ** -66, "1e-30": 2.0 ** -100, "1e+8": 2.0 ** 27, "1e+30": 2.0 ** 100}
 
 
 def scale_decades(dt):
-    # float32: |v|^2 must be representable (1e-28 and 1e+16 x n are; 1e-40 is denormal, 1e-60 underflows: separate, tagged cells)
-    return ("1e-14", "1e-20", "1e-30", "1e+8") if dt == "f64" else ("1e-14", "1e+8", "1e-30")
+    # since 894ea76 the start vector is normalised in two steps (largest entry first), so |v|^2 may under/overflow in the
+    # working precision (float32: 1e-20, 1e-30, 1e+30) without harm: ordinary cells (they were the finding fixed by that commit)
+    return ("1e-14", "1e-20", "1e-30", "1e+8", "1e+30")
 
 
 def run_scale(chk, seed, corr_lines, coupled_lines):
@@ -818,10 +818,7 @@ def run_scale(chk, seed, corr_lines, coupled_lines):
                         mi = budgets(n)[mk]
                         for dec in scale_decades(dt):
                             sc = SCALES[dec]
-                            hz = f"/{HAZARD_UFL}" if (dt == "f32" and dec == "1e-30") else ""
-                            if hz and not (n == sizes[0] and mk == "n"):
-                                continue  # a few tagged cells are enough for the known underflow
-                            cid = (f"C09/scale/lanczos/n={n}/b={'x'.join(map(str, batch)) or '-'}/cols={cols_kind}/mi={mk}/s={dec}/{dt}" + hz)
+                            cid = f"C09/scale/lanczos/n={n}/b={'x'.join(map(str, batch)) or '-'}/cols={cols_kind}/mi={mk}/s={dec}/{dt}"
                             g = gen_for(seed, cid.replace(f"/s={dec}", ""))  # the same A, v for every decade
                             A64, _ = make_A(g, "fullrank", n, batch)
                             A = A64.to(dtype)
@@ -868,8 +865,6 @@ def run_scale(chk, seed, corr_lines, coupled_lines):
                 # ---- end to end: inverse root from scaled probes, full budget
                 for probes, p in (("one", 1), ("many-one-tiny", 3)):
                     for dec in scale_decades(dt):
-                        if dt == "f32" and dec == "1e-30":
-                            continue
                         sc = SCALES[dec]
                         cid = f"C09/scale/root_inv/n={n}/b={'x'.join(map(str, batch)) or '-'}/probes={probes}/s={dec}/{dt}"
                         g = gen_for(seed, cid.replace(f"/s={dec}", ""))
